@@ -77,3 +77,59 @@ pub fn proc_gen_expr(expr: &Expression, scopes: &[VerifScope]) -> Result<Vec<Str
     })?;
     Ok(out)
 }
+
+// ---- trace of the JavaScript writer API (which operations the generators invoke, in order) ----
+thread_local! {
+    static TRACE: std::cell::RefCell<Option<Vec<(String, String)>>> = std::cell::RefCell::new(None);
+}
+
+/// Records one writer operation (no-op unless a trace was started on this thread).
+pub(crate) fn trace(tag: &str, payload: &str) {
+    TRACE.with(|t| {
+        if let Some(v) = t.borrow_mut().as_mut() {
+            v.push((tag.to_string(), payload.to_string()));
+        }
+    });
+}
+
+/// Records what `JsTopScopeWriter::finish` is about to write.
+pub(crate) fn trace_finish(top_declares: &[String], sub_strs: &[String]) {
+    let mut s = String::new();
+    if !top_declares.is_empty() {
+        s.push_str("var ");
+        s.push_str(&top_declares.join(","));
+    }
+    for (i, x) in sub_strs.iter().enumerate() {
+        if i > 0 || !top_declares.is_empty() {
+            s.push(';');
+        }
+        s.push_str(x);
+    }
+    trace("Z", &s);
+}
+
+/// Bracket of a nested writer scope: `tag{` on creation, `}tag` when dropped.
+pub(crate) struct Scope(&'static str);
+
+impl Scope {
+    pub(crate) fn new(tag: &'static str, payload: &str) -> Self {
+        trace(&format!("{}{{", tag), payload);
+        Scope(tag)
+    }
+}
+
+impl Drop for Scope {
+    fn drop(&mut self) {
+        trace(&format!("}}{}", self.0), "");
+    }
+}
+
+/// Starts recording writer operations on this thread.
+pub fn writer_trace_start() {
+    TRACE.with(|t| *t.borrow_mut() = Some(vec![]));
+}
+
+/// Stops recording and returns the operations recorded since `writer_trace_start`.
+pub fn writer_trace_take() -> Vec<(String, String)> {
+    TRACE.with(|t| t.borrow_mut().take().unwrap_or_default())
+}
